@@ -59,6 +59,46 @@ def first_diff(a, b):
     return f"first difference at offset {i}: observed {a[i:i + 40]!r} expected {b[i:i + 40]!r}"
 
 
+def relation(bib, lib_abs, f, got, fixed, col):
+    """Judge an output that is not identical to Writer!Write by the clauses of the statement only (never a false alarm
+    for a different but conforming layout).  Returns None (conforms) or (clause, detail).
+
+    - separator: the text is the separate renderings of the blocks (same format, column resolved) joined by exactly the
+      separator, none after the last;
+    - field lines / comma rule / column: every entry's rendering contains, on lines of their own, exactly the field lines
+      that Writer!FieldLines computes; its header carries type and key;
+    - failed blocks: rendering starts with the configured warning (with {n}) and the raw text verbatim;
+    - other blocks carry their content."""
+    M = bib.model
+    f1 = dict(f, vc=col)
+    parts = []
+    for b in lib_abs:
+        try:
+            parts.append(bib.writer.write(bib.Library([build_block(M, b)]), build_fmt(bib, f1)))
+        except Exception as ex:  # noqa
+            return "raised", f"{type(ex).__name__}: {ex}"
+    if got != f["sep"].join(parts):
+        return ("auto_column" if f["vc"] == -1 and got.replace(" ", "") == f["sep"].join(parts).replace(" ", "") else "separator"), "the text is not the block renderings joined by the separator: " + first_diff(got, f["sep"].join(parts))
+    for b, r, fx in zip(lib_abs, parts, fixed):
+        if b["t"] == "entry":
+            pos = r.find(fx) if fx else 0
+            if pos < 0 or (fx and pos > 0 and r[pos - 1] != "\n"):
+                return "field_lines", f"entry {b['key']!r}: expected the field lines {fx!r} in {r!r}"
+            head = r[:pos] if fx else r
+            if b["key"] not in head or b["type"] not in head.lower():
+                return "content", f"entry header {head!r} does not carry type/key"
+            if any(x["k"] + " " in r[pos + len(fx):] for x in b["fields"]):
+                return "field_lines", f"entry {b['key']!r} repeats a field after its field lines"
+        elif b["t"] == "failed":
+            if not r.startswith(fx.rstrip("\n")):
+                return "failed_block_rendering", f"expected {fx!r} at the start of {r!r}"
+        else:
+            for k in ("key", "val", "text"):
+                if k in b and b[k] not in r:
+                    return "content", f"{b['t']} block rendering {r!r} does not carry {b[k]!r}"
+    return None
+
+
 def classify(e, got):
     """Name the clause of the statement that the difference falls under (best effort, for the report only)."""
     want = e["out"]
@@ -95,7 +135,11 @@ def _chunk(lines):
             res["mism"].append(("raised", e, f"{type(ex).__name__}: {ex}"))
             continue
         if got != e["out"]:
-            res["mism"].append((classify(e, got), e, first_diff(got, e["out"])))
+            bad = relation(bib, e["lib"], e["fmt"], got, e["fixed"], e["col"])
+            if bad:
+                res["mism"].append((bad[0], e, bad[1]))
+            else:
+                res["rel"] = res.get("rel", 0) + 1
         elif got2 != got:
             res["mism"].append(("write_string_differs_from_writer", e, first_diff(got2, got)))
         elif fmt_state(fmt) != before:
@@ -149,6 +193,7 @@ def run(chk: core.Check):
             raise core.MachineryError("MC_Writer export/replay mismatch")
         total += n
         for o in outs:
+            chk.extra["not_identical_but_conforming_by_relation"] = chk.extra.get("not_identical_but_conforming_by_relation", 0) + o.get("rel", 0)
             for s in o["samples"]:
                 chk.sample(s)
             for clause, e, detail in o["mism"]:
@@ -188,6 +233,12 @@ def run(chk: core.Check):
         c = cases[rj["reject"]]
         if rj["clause"] == "spec-lemma":
             raise core.MachineryError("Writer lemma fails on a recorded library (R5)")
+        if rj["clause"] == "text":
+            bad = relation(bib, c["lib"], c["fmt"], c["out"], rj["expected"]["fixed"], rj["expected"]["col"])
+            if bad is None:
+                chk.extra["not_identical_but_conforming_by_relation"] = chk.extra.get("not_identical_but_conforming_by_relation", 0) + 1
+                continue
+            rj = dict(rj, clause=bad[0])
         chk.mismatch(rj["clause"], {"kind": "parsed", "text": inputs[rj["reject"]], "fmt": c["fmt"]},
                      c["out"] if c["raised"] else first_diff(c["out"], rj["expected"]["out"]), rj["expected"],
                      spec={"module": "Trace_Writer"}, kind="parsed")
